@@ -51,6 +51,8 @@ type Run struct {
 	pkgs  map[string]bool
 	notes []string
 	cur   string
+
+	selftest []selfTestResult
 }
 
 func NewRun(prop, tier string) *Run {
@@ -306,6 +308,7 @@ func (r *Run) Finish(verifDir string, start time.Time, pd *PropDoc, replayOnly s
 			"known_findings_hit":  len(seenKnown),
 			"explanation":         expl,
 			"notes":               r.notes,
+			"checker_selftest":    r.selftestSummary(),
 			"exhaustive":          false,
 		},
 		Assumptions: append([]string{
@@ -343,4 +346,20 @@ type PropDoc struct {
 	NotDecided  string
 	Assumptions []string
 	Fn          func(c *Ctx)
+}
+
+func (r *Run) selftestSummary() map[string]any {
+	if r.selftest == nil {
+		return map[string]any{"run": false, "note": "the checker self-test (recorded variants applied through in-memory overlays) runs in the thorough tier"}
+	}
+	n := map[string]int{}
+	for _, s := range r.selftest {
+		k := s.Status
+		if len(k) > 14 && k[:14] == "not-applicable" {
+			k = "not-applicable"
+		}
+		n[k]++
+	}
+	return map[string]any{"run": true, "variants": len(r.selftest), "by_status": n, "results": r.selftest,
+		"note": "a MISSED/FALSE-ALARM entry says the checker is weaker/stricter than recorded; it is reported but does not change the verdict about /repo"}
 }
